@@ -1,6 +1,8 @@
 """C07 — countdown and staircase timers fire once, on time, and survive a reboot."""
+import struct
+
 import framework as F
-from props.c03 import set_value
+from props.c03 import set_value, chan_config
 
 
 class C07(F.Spec):
@@ -72,9 +74,11 @@ class C07(F.Spec):
         nrel = rng.choice([1, 2, 4, 8])
         ops = ["board relay%d" % nrel, "init"]
         # staircase channels: every switch-on runs the configured time whatever duration the command carries
+        stair_ms = {}
         for k in range(nrel):
             if rng.random() < .25:
-                ops.append("staircase %d %d 0" % (k, rng.choice([300, 1000, 2500, 12000])))
+                stair_ms[k] = rng.choice([300, 1000, 2500, 12000])
+                ops.append("staircase %d %d 0" % (k, stair_ms[k]))
         ops.append("adv 200")
         cmds = []
         now = 200
@@ -87,6 +91,13 @@ class C07(F.Spec):
             step = rng.choice([100, 150, 300, 700, 1500, 3000, 11000])
             self.wait(ops, step)
             now += step
+            if rng.random() < .3:
+                # the server repeats the channel configuration with the time the device already has: nothing may change
+                c2 = rng.randrange(nrel)
+                if stair_ms.get(c2):
+                    ops.append("msg 690 " + chan_config(c2, 300, 0, struct.pack("<I", stair_ms[c2])).hex())
+                else:
+                    ops.append("msg 690 " + chan_config(c2, rng.choice([130, 140]), 0, bytes(8)).hex())
         self.wait(ops, 62000)
         return F.Case("scen%d" % i, ops, {"tags": ["kind:scenario", "relays:%d" % nrel], "kind": "scenario", "cmds": cmds})
 
